@@ -2519,6 +2519,11 @@ func (r *RIB) Flush(networkInstances []string) error {
 		}
 
 		for _, id := range backupNHGs {
+			// A backup group may be shared by several groups, or not be installed in
+			// this network instance at all: there is nothing (more) to remove then.
+			if _, ok := niR.r.Afts.NextHopGroup[id]; !ok {
+				continue
+			}
 			delNHG(id)
 		}
 
